@@ -173,7 +173,14 @@ Definition parse_predef (name : bytes) (ps : list param) : option predef :=
       | PaTag t, PaRange lo hi => Some (PFind f (Some t) (Some (lo, hi)))
       | _, _ => None
       end
+    else if nm name "Count.group_by_refilter" then      (* Count::new(f).group_by(g).filter(f2): the later filter replaces the first *)
+      match so, wi with
+      | PaTag g, PaFilter f2 => Some (PCountGrouped g (Some f2))
+      | _, _ => None
+      end
     else None
+  | [PaTag g; PaFilter _; PaFilter f2] =>               (* CountGrouped::new(g).filter(f1).filter(f2) *)
+    if nm name "CountGrouped.refilter" then Some (PCountGrouped g (Some f2)) else None
   | [PaTag t; fo; PaTags g] =>
     if nm name "List.new" then
       match fo with
